@@ -53,7 +53,11 @@ PROPS["C01"] = {
              [H(n, "thorough", timeout=2400, cost=400, recursion_bounds=REC1, mem_gb=16,
                 bounds="array `ah` of two descriptors (same or distinct, symbolic), byte order symbolic, offset as named; dup(2) stubbed",
                 asserts="indices are u32 positions in the attached list in message byte order; duplicates share one slot; attached count")
-              for n in ["c01_enc_ah_p0", "c01_enc_ah_p2"]]),
+              for n in ["c01_enc_ah_p0", "c01_enc_ah_p2"]] +
+             [H(n, "thorough", timeout=2400, cost=700, recursion_bounds=REC1, mem_gb=24,
+                bounds="struct (yu) with symbolic fields, byte order symbolic, message offset as named",
+                asserts="bytes and length == spec marshaller (8-byte struct alignment, member alignment)")
+              for n in ["c01_enc_yu_p0", "c01_enc_yu_p5"]]),
         dict(ZV_INCRATE, harnesses=[
             H("c01_padding_kernel", "quick", timeout=300, cost=10, bounds="value: every usize; align in {1,2,4,8}",
               asserts="padding_for_n_bytes(value, align) == (-value) mod align"),
@@ -196,6 +200,8 @@ PROPS["C08"] = {
         H("c08_laws_s", "thorough", timeout=1800, cost=200, mem_gb=16, bounds="three Value::Str of 0..=2 symbolic ASCII bytes", asserts="all laws on strings"),
         H("c08_laws_s_o", "thorough", timeout=1800, cost=200, mem_gb=16, bounds="Value::Str vs Value::ObjectPath of 0..=2 symbolic bytes", asserts="never equal; ordering laws"),
         H("c08_laws_nested_u", "thorough", timeout=1800, cost=200, mem_gb=16, bounds="three Value::Value(Value::U32), every payload", asserts="all laws one level deep; signature is 'v'"),
+        H("c08_array_conversions_y", "thorough", timeout=2400, cost=400, mem_gb=16, bounds="two symbolic u8 elements; Array from &[u8] and from Vec<u8>", asserts="equal arrays; every element has the array's element signature"),
+        H("c08_array_conversions_v", "thorough", timeout=2400, cost=400, mem_gb=16, bounds="two Value::U8 elements; Array from &[Value] and from Vec<Value>", asserts="equal arrays; element signature 'v'; every element has it"),
         H("c08_clone_y", "thorough", timeout=1800, cost=150, mem_gb=16, bounds="Value::U8, every payload", asserts="try_clone preserves == and signature; value_signature == variant's signature"),
         H("c08_clone_x", "thorough", timeout=1800, cost=150, mem_gb=16, bounds="Value::I64, every payload", asserts="as above"),
         H("c08_clone_d", "thorough", timeout=1800, cost=150, mem_gb=16, bounds="Value::F64, every non-NaN payload", asserts="as above"),
@@ -298,6 +304,10 @@ PROPS["PROBE12"] = {"claimed": False, "groups": [dict(ZB_INCRATE, in_crate_file=
     H("c23_unix_path_is_decoded", timeout=1500, mem_gb=16)])]}
 PROPS["PROBE15"] = {"claimed": False, "groups": [dict(ZB_INCRATE, in_crate_file="zbus_address.rs", harnesses=[
     H("c10_guid_plain", timeout=2400, mem_gb=20, inline_mod="guid_c10"), H("c10_guid_uuid_forms", timeout=2400, mem_gb=20, inline_mod="guid_c10")])]}
+PROPS["PROBE16"] = {"claimed": False, "groups": [dict(ZV, harnesses=[
+    H("c01_enc_ayu_p0", timeout=3000, mem_gb=28, recursion_bounds=REC1), H("c01_enc_v_u_p0", timeout=3000, mem_gb=28)])]}
+PROPS["PROBE17"] = {"claimed": False, "groups": [dict(ZV, harnesses=[
+    H("c03_dec_yu_p0", timeout=3000, mem_gb=24, recursion_bounds=REC1), H("c03_dec_yu_p5", timeout=3000, mem_gb=24, recursion_bounds=REC1)])]}
 PROPS["PROBE8"] = {"claimed": False, "groups": [dict(ZV_INCRATE, harnesses=[
     H("c07_site_de_variant", timeout=2400, mem_gb=20), H("c07_site_ser_struct", timeout=2400, mem_gb=20), H("c07_site_ser_array", timeout=2400, mem_gb=20),
     H("c07_site_de_struct", timeout=2400, mem_gb=20), H("c07_site_de_array", timeout=2400, mem_gb=20)])]}
